@@ -131,8 +131,13 @@ pub fn one_port_state(v: Version, store: &mut MPortData, port: Port) -> core::me
 	core::mem::ManuallyDrop::new(ParseState::verif_from_parts(table_for(v), 0, mk_start(v), frames, idx))
 }
 
+/// Row capacity of the harness-built port columns: enough for every harness (<= 3 rows), so no
+/// `push` has to grow its buffer (parse_start itself reserves 1024 rows; with capacity 0 every
+/// first push explores the allocator's grow path, which triples the cost of a step).
+pub const PORT_CAPACITY: usize = 4;
+
 pub fn new_port(v: Version, port: Port, ics: bool) -> core::mem::ManuallyDrop<MPortData> {
-	core::mem::ManuallyDrop::new(MPortData::with_capacity(0, v, PortOccupancy { port, follower: ics }))
+	core::mem::ManuallyDrop::new(MPortData::with_capacity(PORT_CAPACITY, v, PortOccupancy { port, follower: ics }))
 }
 
 /// Fill the 6-byte header of a Frame Pre / Frame Post event.
